@@ -11,6 +11,7 @@ policy strings deny (4) > write (3) > list (2) > read (1) > anything that is not
 import CV.Proofs.AclAuthz
 import CV.Proofs.AclQueries
 import CV.Proofs.AclCache
+import CV.Proofs.AclRpc
 namespace CV.Acl
 
 /-! ## 1. merging: deny > write > list > read, slot by slot -/
@@ -206,6 +207,90 @@ theorem longest_prefix_decides (ps : List Policy) (hv : AllValid ps) (z : Authz)
   have := longest_prefix ps z hz s n p a (slotLevel_none_of_noRule ps s false n hex) hp
     (slotLevel_of_strongest ps hv s hs true p a ha)
     (fun q hq hne => hmax q hq (noRule_of_slotLevel_ne_none ps s true q hne))
+  simp only [chain, hd, this, enforceOpt]
+  cases a <;> cases acc <;> simp [enforce]
+
+/-! ### … and for the derived intention tree
+
+A service rule implies an intention rule for the same name: its explicit `intentions` level if any
+policy gives one for that slot (the strongest such level), otherwise `read` when the merged service
+level is read or write and `deny` when it is deny. -/
+
+/-- the intention level a service level implies when no policy states `intentions` explicitly -/
+def impliedIntention : Access → Access
+  | .read | .write => .read
+  | _ => .deny
+
+/-- `a` is the intention level the policies give to the service slot (exact/prefix, name) -/
+def IntentionLevel (ps : List Policy) (pfx : Bool) (n : Bytes) (a : Access) : Prop :=
+  ((∃ p ∈ ps, ∃ r ∈ p.rules, inSlot .service pfx n r = true ∧ r.intent = .lvl a) ∧
+    ∀ p ∈ ps, ∀ r ∈ p.rules, inSlot .service pfx n r = true → r.intent.rank ≤ a.rank) ∨
+  ((∀ p ∈ ps, ∀ r ∈ p.rules, inSlot .service pfx n r = true → r.intent = .empty) ∧
+    ∃ b, Strongest ps .service pfx n b ∧ a = impliedIntention b)
+
+theorem merged_pol_of_strongest (ps : List Policy) (hv : AllValid ps) (k : Kind) (pfx : Bool) (n : Bytes)
+    (a : Access) (h : Strongest ps k pfx n a) (m : Rule)
+    (hm : findSlot (mergePolicies ps).rules k pfx n = some m) : m.pol = .lvl a := by
+  obtain ⟨⟨p, hp, r, hr, hin, hra⟩, hmax⟩ := h
+  have ⟨⟨p', hp', r', hr', hin', e⟩, hmx⟩ := merge_is_max ps k pfx n m hm
+  have h1 := hmx p hp r hr hin
+  have h2 := hmax p' hp' r' hr' hin'
+  have hok := allRules_ok hv r' (List.mem_flatMap.mpr ⟨p', hp', hr'⟩)
+  apply PStr.eq_of_rank
+  · rw [e]; exact hok.pol_clean
+  · simp [PStr.clean]
+  · rw [hra] at h1; rw [← e] at h2; simp only [PStr.rank] at h1 h2 ⊢; omega
+
+theorem slotLevel_intention (ps : List Policy) (hv : AllValid ps) (pfx : Bool) (n : Bytes) (a : Access)
+    (h : IntentionLevel ps pfx n a) :
+    slotLevel intentionOf (mergePolicies ps).rules .service pfx n = some a := by
+  have hne : ∃ p ∈ ps, ∃ r ∈ p.rules, inSlot .service pfx n r = true := by
+    rcases h with ⟨⟨p, hp, r, hr, hin, _⟩, _⟩ | ⟨_, b, ⟨⟨p, hp, r, hr, hin, _⟩, _⟩, _⟩
+    · exact ⟨p, hp, r, hr, hin⟩
+    · exact ⟨p, hp, r, hr, hin⟩
+  cases hm : findSlot (mergePolicies ps).rules .service pfx n with
+  | none =>
+    obtain ⟨p, hp, r, hr, hin⟩ := hne
+    have := (merge_slot_empty_iff ps .service pfx n).mp hm p hp r hr
+    rw [this] at hin; cases hin
+  | some m =>
+    have ⟨⟨p', hp', r', hr', hin', e⟩, hmx⟩ := merge_intentions_is_max ps pfx n m hm
+    have hok := allRules_ok hv r' (List.mem_flatMap.mpr ⟨p', hp', hr'⟩)
+    rcases h with ⟨⟨p, hp, r, hr, hin, hra⟩, hmax⟩ | ⟨hall, b, hb, hab⟩
+    · have h1 := hmx p hp r hr hin
+      have h2 := hmax p' hp' r' hr' hin'
+      have hi : m.intent = .lvl a := by
+        apply PStr.eq_of_rank
+        · rw [e]; exact hok.intent_clean
+        · simp [PStr.clean]
+        · rw [hra] at h1; rw [← e] at h2; simp only [PStr.rank] at h1 h2 ⊢; omega
+      simp [slotLevel, hm, intentionOf, hi, PStr.level]
+    · have hi : m.intent = .empty := by rw [e]; exact hall p' hp' r' hr' hin'
+      have hp := merged_pol_of_strongest ps hv .service pfx n b hb m hm
+      subst hab
+      cases b <;> simp [slotLevel, hm, intentionOf, hi, hp, PStr.level, impliedIntention]
+
+/-- exact rule, end to end, for intentions (`IntentionRead` / `IntentionWrite` of a name other than `*`) -/
+theorem intention_exact_rule_decides (ps : List Policy) (hv : AllValid ps) (z : Authz)
+    (hz : newPolicyAuthorizer ps = some z) (d : Static) (acc : Access) (n : Bytes) (hn : n ≠ star)
+    (r : Req) (hr : namedReq .intention acc n = some r) (a : Access) (h : IntentionLevel ps false n a) :
+    chain z d r = enforce a acc := by
+  have hd := decide_namedReq z .intention acc n r hr (fun _ => hn)
+  have := exact_wins ps z hz .intention n a (slotLevel_intention ps hv false n a h)
+  simp only [chain, hd, this, enforceOpt]
+  cases a <;> cases acc <;> simp [enforce]
+
+/-- longest prefix, end to end, for intentions -/
+theorem intention_longest_prefix_decides (ps : List Policy) (hv : AllValid ps) (z : Authz)
+    (hz : newPolicyAuthorizer ps = some z) (d : Static) (acc : Access) (n : Bytes) (hn : n ≠ star)
+    (r : Req) (hr : namedReq .intention acc n = some r) (p : Bytes) (a : Access)
+    (hex : NoRule ps .service false n) (hp : p <+: n) (ha : IntentionLevel ps true p a)
+    (hmax : ∀ q, q <+: n → ¬ NoRule ps .service true q → q.length ≤ p.length) :
+    chain z d r = enforce a acc := by
+  have hd := decide_namedReq z .intention acc n r hr (fun _ => hn)
+  have := longest_prefix ps z hz .intention n p a (slotLevel_none_of_noRule ps .intention false n hex) hp
+    (slotLevel_intention ps hv true p a ha)
+    (fun q hq hne => hmax q hq (noRule_of_slotLevel_ne_none ps .intention true q hne))
   simp only [chain, hd, this, enforceOpt]
   cases a <;> cases acc <;> simp [enforce]
 
@@ -472,6 +557,171 @@ theorem versioned_history (hist : List Doc)
   · simp [svcDoc, nodeDoc] at hid
   · simp only [nodeDoc, List.cons.injEq, true_and] at hid ⊢; rw [hid]
 
+
+/-! ## 5b. RPC mode: the TTL caches for identities, roles and policies
+
+`resolveRpc` (CV.AclRpc) is `ResolveToken` when nothing resolves locally: the token, its roles and its
+policies are fetched from the servers and kept for their TTL (`Age() <= ACLTokenTTL`, `Age() <
+ACLRoleTTL`, `Age() < ACLPolicyTTL`; negative answers included, re-fetched once aged). The decision can
+then only be a function of the token's own objects *as of the freshest data the TTL contract allows*.
+`trace` is the history of (clock, server state) moments; `InWindow trace now ttl get v` says that `v`
+is what `get` read from the server state at some moment whose clock `t'` satisfies
+`now - ttl ≤ t' ≤ now`. -/
+
+/-- what the TTL contract promises about the answer `res` of a resolution of `secret` at clock `now` -/
+def Admissible (cfg : RpcCfg) (trace : List Snap) (now : Nat) (secret : Bytes) (res : RpcResult) : Prop :=
+  ∃ (tokV : Bytes → Option Token) (roleV : Bytes → Option Role) (docV : Bytes → Option Doc),
+    (∀ k, InWindow trace now cfg.tokenTTL (fun st => st.token k) (tokV k)) ∧
+    (∀ k, InWindow trace now cfg.roleTTL (fun st => st.role k) (roleV k)) ∧
+    (∀ k, InWindow trace now cfg.policyTTL (fun st => st.doc k) (docV k)) ∧
+    res = RpcResult.ofExcept (resolveFreshV tokV roleV docV cfg.dc secret)
+
+/-- resolve_rpc_pure: with reachable servers and a down policy that waits for the servers
+    (`extend-cache`, `allow`, `deny`), whatever the identity / role / policy / parsed-policy /
+    authorizer caches hold from earlier resolutions of any tokens (any state satisfying `RpcInv`), the
+    answer equals the cache-free resolution against a view in which each object consulted — the token,
+    every role id, every policy id — has the value the servers held at some moment within that object's
+    TTL window. The shared compile caches never show (`compile_pure`). -/
+theorem resolve_rpc_pure (U : Doc → Prop) (hV : Versioned U) (hsvc : ∀ x, U (svcDoc x)) (hnode : ∀ x, U (nodeDoc x))
+    (cfg : RpcCfg) (hna : cfg.isAsync = false) (trace : List Snap) (now : Nat) (s : Store) (st : RpcState)
+    (inv : RpcInv U trace now st) (hcur : (now, s) ∈ trace) (secret : Bytes) :
+    Admissible cfg trace now secret (resolveRpc cfg true s now st secret).2 :=
+  ⟨viewTok st.idents now cfg.tokenTTL s.token, viewOf st.roles now cfg.roleTTL s.role,
+    viewOf st.pols now cfg.policyTTL s.doc,
+    fun k => viewTok_window trace now cfg.tokenTTL s hcur inv.times st.idents inv.idents k,
+    fun k => viewOf_window trace now cfg.roleTTL s hcur inv.times (fun st k => st.role k) st.roles inv.roles k,
+    fun k => viewOf_window trace now cfg.policyTTL s hcur inv.times (fun st k => st.doc k) st.pols inv.pols k,
+    (resolveRpc_up_spec U hV hsvc hnode cfg hna trace now s st inv hcur secret).1⟩
+
+/-- … and leaves caches that satisfy the invariant again. -/
+theorem resolve_rpc_preserves_inv (U : Doc → Prop) (hV : Versioned U) (hsvc : ∀ x, U (svcDoc x)) (hnode : ∀ x, U (nodeDoc x))
+    (cfg : RpcCfg) (hna : cfg.isAsync = false) (trace : List Snap) (now : Nat) (s : Store) (st : RpcState)
+    (inv : RpcInv U trace now st) (hcur : (now, s) ∈ trace) (secret : Bytes) :
+    RpcInv U trace now (resolveRpc cfg true s now st secret).1 :=
+  (resolveRpc_up_spec U hV hsvc hnode cfg hna trace now s st inv hcur secret).2
+
+/-- resolve_rpc_zero_ttl: with all three TTLs zero the answer is the cache-free resolution against
+    the servers' state at the current clock — the current state `s`, provided no write happened earlier
+    within the same clock value (real time always advances between two operations). -/
+theorem resolve_rpc_zero_ttl (U : Doc → Prop) (hV : Versioned U) (hsvc : ∀ x, U (svcDoc x)) (hnode : ∀ x, U (nodeDoc x))
+    (cfg : RpcCfg) (hna : cfg.isAsync = false) (h0 : cfg.tokenTTL = 0 ∧ cfg.roleTTL = 0 ∧ cfg.policyTTL = 0)
+    (trace : List Snap) (now : Nat) (s : Store) (st : RpcState)
+    (inv : RpcInv U trace now st) (hcur : (now, s) ∈ trace) (hfresh : ∀ p ∈ trace, p.1 = now → p.2 = s)
+    (secret : Bytes) :
+    (resolveRpc cfg true s now st secret).2 = RpcResult.ofExcept (resolveFresh s cfg.dc secret) := by
+  rw [(resolveRpc_up_spec U hV hsvc hnode cfg hna trace now s st inv hcur secret).1]
+  have w1 := fun k => viewTok_window trace now cfg.tokenTTL s hcur inv.times st.idents inv.idents k
+  have w2 := fun k => viewOf_window trace now cfg.roleTTL s hcur inv.times (fun st k => st.role k) st.roles inv.roles k
+  have w3 := fun k => viewOf_window trace now cfg.policyTTL s hcur inv.times (fun st k => st.doc k) st.pols inv.pols k
+  rw [h0.1] at w1; rw [h0.2.1] at w2; rw [h0.2.2] at w3
+  have e1 : viewTok st.idents now cfg.tokenTTL s.token = s.token := by
+    rw [h0.1]; exact funext fun k => (w1 k).zero hfresh
+  have e2 : viewOf st.roles now cfg.roleTTL s.role = s.role := by
+    rw [h0.2.1]; exact funext fun k => (w2 k).zero hfresh
+  have e3 : viewOf st.pols now cfg.policyTTL s.doc = s.doc := by
+    rw [h0.2.2]; exact funext fun k => (w3 k).zero hfresh
+  rw [e1, e2, e3]
+  rfl
+
+/-! ### whole RPC-mode histories -/
+
+inductive ROp
+  | putDoc (d : Doc) | delDoc (id : Bytes) | putRole (r : Role) | delRole (id : Bytes)
+  | putToken (t : Token) | delToken (secret : Bytes)
+  | tick (n : Nat)
+  | resolve (secret : Bytes)
+
+def ROp.write (s : Store) : ROp → Store
+  | .putDoc d => s.putDoc d
+  | .delDoc id => s.delDoc id
+  | .putRole r => s.putRole r
+  | .delRole id => s.delRole id
+  | .putToken t => s.putToken t
+  | .delToken x => s.delToken x
+  | _ => s
+
+/-- one resolution of a history, with the history up to it -/
+structure Resolution where
+  trace : List Snap
+  now : Nat
+  secret : Bytes
+  res : RpcResult
+
+/-- run a history with reachable servers through ONE resolver; every write and every clock advance is
+    a new moment of the trace -/
+def runRpc (cfg : RpcCfg) : Store → Nat → List Snap → RpcState → List ROp → List Resolution
+  | _, _, _, _, [] => []
+  | s, now, trace, st, .resolve secret :: ops =>
+    let r := resolveRpc cfg true s now st secret
+    ⟨trace, now, secret, r.2⟩ :: runRpc cfg s now trace r.1 ops
+  | s, now, trace, st, .tick n :: ops => runRpc cfg s (now + n) ((now + n, s) :: trace) st ops
+  | s, now, trace, st, op :: ops => runRpc cfg (op.write s) now ((now, op.write s) :: trace) st ops
+
+/-- rpc_sequence_pure: in every history of writes, deletions, clock advances and resolutions of any
+    tokens through one resolver (reachable servers, waiting down policy), every resolution is
+    `Admissible`: it equals the cache-free resolution on values the servers held within the TTL
+    windows — it never depends on which other tokens were resolved before or on anything else the
+    caches hold. -/
+theorem rpc_sequence_pure (U : Doc → Prop) (hV : Versioned U) (hsvc : ∀ x, U (svcDoc x)) (hnode : ∀ x, U (nodeDoc x))
+    (cfg : RpcCfg) (hna : cfg.isAsync = false) (ops : List ROp) (hops : ∀ d, ROp.putDoc d ∈ ops → U d)
+    (s : Store) (now : Nat) (trace : List Snap) (st : RpcState)
+    (inv : RpcInv U trace now st) (hcur : (now, s) ∈ trace) :
+    ∀ r ∈ runRpc cfg s now trace st ops, Admissible cfg r.trace r.now r.secret r.res := by
+  induction ops generalizing s now trace st with
+  | nil => intro r hr; cases hr
+  | cons op ops ih =>
+    have hops' : ∀ d, ROp.putDoc d ∈ ops → U d := fun d hd => hops d (List.mem_cons_of_mem _ hd)
+    -- a write: the new moment (now, s') joins the trace
+    have wr : ∀ s', (∀ d ∈ s'.docs, U d) →
+        ∀ r ∈ runRpc cfg s' now ((now, s') :: trace) st ops, Admissible cfg r.trace r.now r.secret r.res := by
+      intro s' hs'
+      refine ih hops' s' now _ st (inv.mono (fun p hp => List.mem_cons_of_mem _ hp) (Nat.le_refl _) ?_ ?_) List.mem_cons_self
+      · intro p hp
+        rcases List.mem_cons.mp hp with rfl | hp
+        · exact Nat.le_refl _
+        · exact inv.times p hp
+      · intro p hp
+        rcases List.mem_cons.mp hp with rfl | hp
+        · exact hs'
+        · exact inv.docsU p hp
+    have hsU : ∀ d ∈ s.docs, U d := inv.docsU _ hcur
+    cases op with
+    | resolve secret =>
+      intro r hr
+      simp only [runRpc, List.mem_cons] at hr
+      rcases hr with rfl | hr
+      · exact resolve_rpc_pure U hV hsvc hnode cfg hna trace now s st inv hcur secret
+      · exact ih hops' s now trace _ (resolve_rpc_preserves_inv U hV hsvc hnode cfg hna trace now s st inv hcur secret) hcur r hr
+    | tick n =>
+      simp only [runRpc]
+      refine ih hops' s (now + n) _ st (inv.mono (fun p hp => List.mem_cons_of_mem _ hp) (Nat.le_add_right _ _) ?_ ?_) List.mem_cons_self
+      · intro p hp
+        rcases List.mem_cons.mp hp with rfl | hp
+        · exact Nat.le_refl _
+        · exact Nat.le_trans (inv.times p hp) (Nat.le_add_right _ _)
+      · intro p hp
+        rcases List.mem_cons.mp hp with rfl | hp
+        · exact hsU
+        · exact inv.docsU p hp
+    | putDoc d =>
+      simp only [runRpc, ROp.write]
+      apply wr
+      intro x hx
+      simp only [Store.putDoc, List.mem_cons, List.mem_filter] at hx
+      rcases hx with rfl | hx
+      · exact hops x List.mem_cons_self
+      · exact hsU x hx.1
+    | delDoc id =>
+      simp only [runRpc, ROp.write]
+      apply wr
+      intro x hx
+      simp only [Store.delDoc, List.mem_filter] at hx
+      exact hsU x hx.1
+    | putRole r => simp only [runRpc, ROp.write]; exact wr _ hsU
+    | delRole id => simp only [runRpc, ROp.write]; exact wr _ hsU
+    | putToken t => simp only [runRpc, ROp.write]; exact wr _ hsU
+    | delToken x => simp only [runRpc, ROp.write]; exact wr _ hsU
+
 /-! ## 6. non-vacuity and concrete witnesses -/
 
 def web : Bytes := [119, 101, 98]
@@ -494,6 +744,19 @@ example : Strongest [P1, P2, P3] .service false web .write := by
   intro p hp r hr hs
   simp at hp
   rcases hp with rfl | rfl | rfl <;> simp [P1, P2, P3] at hr <;> subst hr <;> revert hs <;> decide
+
+
+/-- intentions: P2 (service web write, no explicit intentions) implies intention read on web -/
+example : IntentionLevel [P1, P2] false web .read := by
+  refine .inr ⟨?_, .write, ⟨⟨P2, by simp, _, List.mem_singleton.mpr rfl, by decide, rfl⟩, ?_⟩, rfl⟩
+  · intro p hp r hr _
+    simp at hp
+    rcases hp with rfl | rfl <;> simp [P1, P2] at hr <;> subst hr <;> rfl
+  · intro p hp r hr hs
+    simp at hp
+    rcases hp with rfl | rfl <;> simp [P1, P2] at hr <;> subst hr <;> revert hs <;> decide
+example : authorize [P1, P2] .denyAll (.intentionRead web) = some .allow := by decide
+example : authorize [P1, P2] .allowAll (.intentionWrite web) = some .deny := by decide
 
 /-- The history of the repaired aliasing defect: token A = {P1, P2}, token B = {P1}. Through shared
     caches B is still denied `service:write` after A was resolved (the defective code granted it). -/
@@ -523,5 +786,29 @@ example : runOps [] Store.empty Caches.empty aliasOps = specOps [] Store.empty a
     simp only [aliasOps, List.mem_cons, Op.putDoc.injEq, reduceCtorEq, List.not_mem_nil, or_false] at hd
     left
     rcases hd with rfl | rfl <;> simp
+
+
+/-- RPC mode, concrete: policy `docA` (service web read) is deleted on the servers right after token B
+    was resolved. One tick later (TTL 3) B still reads web (stale but within the TTL window, as
+    `Admissible` allows); six ticks later the entry has expired, the servers are asked, B is denied. -/
+def rcfg : RpcCfg := ⟨3, 3, 3, .extend, .denyAll, []⟩
+def rpcOps : List ROp :=
+  [.putDoc docA, .putToken tokB, .resolve [98], .delDoc [65], .tick 1, .resolve [98], .tick 5, .resolve [98]]
+
+example : (runRpc rcfg Store.empty 0 [(0, Store.empty)] RpcState.empty rpcOps).map
+    (fun r => r.res.decide rcfg (.serviceRead web false)) = [some .allow, some .allow, some .deny] := by decide
+
+/-- the hypotheses of `rpc_sequence_pure` are met by this history -/
+example : ∀ r ∈ runRpc rcfg Store.empty 0 [(0, Store.empty)] RpcState.empty rpcOps,
+    Admissible rcfg r.trace r.now r.secret r.res := by
+  refine rpc_sequence_pure (fun d => d ∈ [docA, docB] ∨ (∃ x, d = svcDoc x) ∨ (∃ x, d = nodeDoc x))
+    (versioned_history [docA, docB] (by decide) ?_) (fun x => .inr (.inl ⟨x, rfl⟩)) (fun x => .inr (.inr ⟨x, rfl⟩))
+    rcfg rfl rpcOps ?_ Store.empty 0 _ RpcState.empty (RpcInv.init _) (List.mem_singleton.mpr rfl)
+  · intro d hd n
+    simp only [List.mem_cons, List.not_mem_nil, or_false] at hd
+    rcases hd with rfl | rfl <;> simp [docA, docB]
+  · intro d hd
+    simp only [rpcOps, List.mem_cons, ROp.putDoc.injEq, reduceCtorEq, List.not_mem_nil, or_false] at hd
+    left; rw [hd]; simp
 
 end CV.Acl
